@@ -426,7 +426,7 @@ fn render_doc(d: &DocV, idx: usize) -> Y {
 }
 
 fn seeds() -> Vec<String> {
-  let dir = Path::new(VERIF).join("corpus/rules");
+  let dir = crate::engine::verif_root().join("corpus/rules");
   let mut v: Vec<_> = std::fs::read_dir(dir).map(|rd| rd.flatten().map(|e| e.path()).collect()).unwrap_or_default();
   v.sort();
   v.iter().filter_map(|p| std::fs::read_to_string(p).ok()).collect()
@@ -527,7 +527,7 @@ pub fn interpret(ch: &Choice, _st: &mut Stats) -> Option<Case> {
 
 fn scan_sources(lang: SupportLang) -> Vec<String> {
   let li = crate::langs::info(lang);
-  let dir = Path::new(VERIF).join("corpus").join(li.dir);
+  let dir = crate::engine::verif_root().join("corpus").join(li.dir);
   let mut out = vec![String::from("foo(1)\nfoo(a, b)\nconsole.log(a)\nbar(foo(2))\nlet user_account_name = 1;\n"), String::from("\n"), String::from("a"), String::from("((((((((x))))))))"), String::from("é😀 = \"日本\" (")];
   if let Ok(rd) = std::fs::read_dir(dir) {
     let mut paths: Vec<_> = rd.flatten().map(|e| e.path()).collect();
